@@ -131,4 +131,10 @@ example : v9Boundaries cfg (.v9 [9, 2, 1, 2, 3, 4] [{ id := 0, len := 16, body :
     (parseBytes cfg {} (v9p.take 38)).2 = .done [.error (.partialParse 9 ((v9p.take 38).drop 2)) (v9p.take 38)] := by
   constructor <;> decide +kernel
 
+/-- **C14.0** (regenerated from the source on every run) the library declares no mutable global or per-thread state
+    (`static mut`, `thread_local!`, `OnceLock`/`OnceCell`/`lazy_static!`, `static … : Mutex|RwLock|Atomic…`), as the model assumes
+    by making `parseBytes` a function of `(config, parser state, buffer)`: a truncated packet cannot be completed from bytes remembered outside the parser value. -/
+theorem C14_no_global_state : Generated.noGlobals = true := by decide
+
+
 end Netflow.Props
